@@ -112,9 +112,9 @@ func zzFragInvariant(f *FragmentBuffer, restSize, restCount int) {
 // content type handshake, DTLS 1.2; payload fully symbolic with one fragment of 0..FRAGLIM_NBODY bytes or room
 // for two) is pushed. Proved: no panic; the invariant holds again (counters equal stored bytes/fragments, are
 // non-negative, the byte counter is below fragmentBufferMaxSize); one record adds at most its payload bytes and
-// at most one fragment per 12 payload bytes; the fragment counter never exceeds
-// max(previous value, fragmentBufferMaxCount-1 + fragments in this record), i.e. the fragment cap can be overshot
-// by at most the fragments of one record (the strict cap is claimed separately in zzFragLimitsCountCapStrict).
+// at most one fragment per 12 payload bytes; the fragment counter never grows past fragmentBufferMaxCount
+// (it never exceeds max(previous value, fragmentBufferMaxCount)); a buffer at either cap refuses the record
+// and stores nothing.
 //
 //symgo:entry covers=stored,overflow_refused,rejected,retransmit,duplicate_ignored,new_message,two_stored paths=30000
 func zzFragLimitsPushStep() {
@@ -136,8 +136,8 @@ func zzFragLimitsPushStep() {
 	dSize, dCount := f.totalBufferSize-preSize, f.totalFragmentCount-preCount
 	zzsymAssert(zzsymAnd(dSize >= 0, dSize <= n-25), "push_adds_at_most_payload_bytes")
 	zzsymAssert(zzsymAnd(dCount >= 0, dCount <= maxFrags), "push_adds_at_most_one_fragment_per_12_bytes")
-	zzsymAssert(zzsymOr(f.totalFragmentCount <= preCount, f.totalFragmentCount <= fragmentBufferMaxCount-1+maxFrags),
-		"count_bounded_by_cap_plus_one_record")
+	zzsymAssert(zzsymOr(f.totalFragmentCount <= preCount, f.totalFragmentCount <= fragmentBufferMaxCount),
+		"count_never_grows_past_cap")
 	if zzsymOr(preSize+n >= fragmentBufferMaxSize, preCount >= fragmentBufferMaxCount) {
 		zzsymAssert(err != nil, "full_buffer_refuses")
 		zzsymAssert(zzsymAnd(dSize == 0, dCount == 0), "refused_push_stores_nothing")
@@ -164,8 +164,9 @@ func zzFragLimitsPushStep() {
 
 // The strict reading of the fragment cap, as its own claim: from any state with at most fragmentBufferMaxCount
 // stored fragments, one pushed record (one or two fragments, as in zzFragLimitsPushStep) never leaves more than
-// fragmentBufferMaxCount fragments stored. Push tests the cap once per record, before parsing, so a record with
-// several fragments pushed at fragmentBufferMaxCount-1 overshoots it (label count_cap_strict).
+// fragmentBufferMaxCount fragments stored. Finding reported by this entry (label count_cap_strict) before the fix
+// "enforce the fragment count cap for every fragment of a record": Push tested the cap once per record, before
+// parsing, so a record with several (empty) fragments pushed at fragmentBufferMaxCount-1 overshot it.
 //
 //symgo:entry covers=at_cap_refused,below_cap_stored
 func zzFragLimitsCountCapStrict() {
